@@ -64,7 +64,11 @@ func Explore(r *engine.Rec, prog rt.Program, o Opts) {
 	rt.RunOnce(rt.Config{}, nil, warm)
 	outcomes := map[string]bool{}
 	onExec := func(ex *rt.Exec) { outcomes[fmt.Sprint(ex.SortedStuck(), len(ex.Panics))] = true }
+	diverged := false
 	record := func(st rt.ExploreStats, elide, sleep bool) {
+		if st.Diverged {
+			diverged = true
+		}
 		r.Evals += int64(st.Executions)
 		r.States += int64(st.Points)
 		r.Transitions += int64(st.Points + st.Executions)
@@ -112,6 +116,10 @@ func Explore(r *engine.Rec, prog rt.Program, o Opts) {
 		if bound < 0 {
 			r.Incomplete(fmt.Sprintf("%s: neither all interleavings nor the smallest preemption bound completed within the caps", o.Name))
 		}
+	}
+	if diverged {
+		r.Note("not_reproducible", "a recorded schedule prefix could not be followed again: state outside the per-execution objects survives between executions; coverage of this program is incomplete")
+		r.Exhaustive = false
 	}
 	r.Distinct += int64(len(outcomes))
 	r.Note("all_interleavings", allInterleavings)
